@@ -328,9 +328,28 @@ def _eval_test(t, cls, pname):
     return v
 
 
+def find_parser(m):
+    """The switch parser: the function whose result config.update stores into
+    `jaxtyping_disable` (pinned name `_maybestr2bool`; found by this use after a move/rename)."""
+    cls = m.cls("_config._JaxtypingConfig")
+    upd = need(cls.methods.get("update"), "_JaxtypingConfig.update not found")
+    named = [f for f in m.all_functions(include_typeguard=False) if f.module.short == "_config" and f.name == "_maybestr2bool"]
+    if len(named) == 1:
+        return named[0]
+    found = []
+    for n in walk_scope(upd.node):
+        if isinstance(n, ast.Assign) and isinstance(n.value, ast.Call) and any(
+                isinstance(t, ast.Attribute) and t.attr == "jaxtyping_disable" for t in n.targets):
+            t = m.resolve_call(upd, n.value)
+            if t.kind == "func":
+                found.append(t.target)
+    need(len({id(x) for x in found}) == 1, "config.update: the function that parses the value stored into `jaxtyping_disable` was not found")
+    return found[0]
+
+
 def check_parser(ctx):
     m = ctx.model
-    f = m.func("_config._maybestr2bool")
+    f = find_parser(m)
     ctx.saw(f)
     pname = f.params[0]
     n = 0
@@ -360,55 +379,60 @@ def check_wiring(ctx, r):
     vals = cfgmod.assigns.get("config", [])
     if not (len(vals) == 1 and isinstance(vals[0], ast.Call) and isinstance(vals[0].func, ast.Name) and vals[0].func.id == cls.name):
         raise AnalysisError("_config.config is not a single _JaxtypingConfig() instance")
-    # update(): branch per key
-    branches = {}
-    has_else_raise = False
+    # update(): simulated for the key classes 'jaxtyping_disable' / an unknown key -- however the
+    # dispatch is spelled (if/elif chain, guard clauses with return, match on a lowered copy ...)
+    from ..absim import eval_bool, simulate
+    from ..typestate import NoReturn
 
-    def walk_if(st):
-        nonlocal has_else_raise
-        t = st.test
-        key = None
-        if isinstance(t, ast.Compare) and len(t.ops) == 1 and isinstance(t.ops[0], ast.Eq) and isinstance(t.comparators[0], ast.Constant):
-            lowered = isinstance(t.left, ast.Call) and isinstance(t.left.func, ast.Attribute) and t.left.func.attr == "lower"
-            key = (t.comparators[0].value, lowered)
-        if key is None:
-            raise AnalysisError(f"C19.3: unrecognised key test `{norm(t)}` in config.update")
-        attrs = []
-        for x in st.body:
-            for n in ast.walk(x):
-                if isinstance(n, ast.Assign):
-                    for tg in n.targets:
-                        if isinstance(tg, ast.Attribute) and isinstance(tg.value, ast.Name) and tg.value.id == upd.params[0]:
-                            parser = isinstance(n.value, ast.Call) and m.resolve_call(upd, n.value).kind == "func" and m.resolve_call(upd, n.value).target.name == "_maybestr2bool"
-                            uses_value = isinstance(n.value, ast.Call) and n.value.args and isinstance(n.value.args[0], ast.Name) and n.value.args[0].id == upd.params[2]
-                            attrs.append((tg.attr, parser and uses_value, n))
-        branches[key[0]] = (attrs, key[1], st)
-        if len(st.orelse) == 1 and isinstance(st.orelse[0], ast.If):
-            walk_if(st.orelse[0])
-        else:
-            for x in st.orelse:
-                if isinstance(x, ast.Raise):
-                    nm = x.exc.func.id if isinstance(x.exc, ast.Call) and isinstance(x.exc.func, ast.Name) else "?"
-                    has_else_raise = nm == "ValueError"
+    g = NoReturn(m).cfg(upd)
+    p_self, p_item, p_value = upd.params[0], upd.params[1], upd.params[2]
+    lowered_seen = {"v": False}
+    parser_fn = find_parser(m)
 
-    tops = [s for s in upd.body if isinstance(s, ast.If)]
-    need(len(tops) == 1, "config.update: expected one if/elif chain")
-    walk_if(tops[0])
-    if not has_else_raise:
-        ctx.bad("C19.3", upd, tops[0], "an unknown config key is not rejected with ValueError")
+    def stop(n):
+        return n.kind in ("return", "raise", "exit", "exit_e", "exit_b", "falloff")
+
+    def event_of(n):
+        a_ = n.ast
+        if n.kind == "stmt" and isinstance(a_, ast.Assign):
+            for tg in a_.targets:
+                if isinstance(tg, ast.Attribute) and isinstance(tg.value, ast.Name) and tg.value.id == p_self:
+                    v = a_.value
+                    t = m.resolve_call(upd, v) if isinstance(v, ast.Call) else None
+                    parser = t is not None and t.kind == "func" and t.target is parser_fn
+                    uses_value = isinstance(v, ast.Call) and v.args and isinstance(v.args[0], ast.Name) and v.args[0].id == p_value
+                    return f"store:{tg.attr}:{'parsed' if parser and uses_value else 'other'}"
+        return None
+
+    def run_for(key):
+        def atom(e):
+            if isinstance(e, ast.Compare) and len(e.ops) == 1 and isinstance(e.ops[0], (ast.Eq, ast.NotEq)) and isinstance(e.comparators[0], ast.Constant):
+                left = e.left
+                lowered = isinstance(left, ast.Call) and isinstance(left.func, ast.Attribute) and left.func.attr == "lower" and norm(left.func.value) == p_item
+                if lowered or norm(left) == p_item:
+                    if lowered:
+                        lowered_seen["v"] = True
+                    v = e.comparators[0].value == key
+                    return v if isinstance(e.ops[0], ast.Eq) else not v
+            raise AnalysisError(f"C19.3: unrecognised key test `{norm(e)}` in config.update")
+        return simulate(g, g.entry, stop, lambda n: eval_bool(n.ast, atom), None, event_of)
+
+    outs_unknown = run_for("<some other key>")
+    bad_unknown = [o for o in outs_unknown if not (o.end.kind == "raise" and "ValueError" in norm(o.end.ast))]
+    if bad_unknown:
+        ctx.bad("C19.3", upd, bad_unknown[0].end.ast if bad_unknown[0].end.ast is not None else upd.node, "an unknown config key is not rejected with ValueError")
     else:
         ctx.ok("C19.3", upd.qualname, "unknown key -> ValueError")
-    b = branches.get("jaxtyping_disable")
-    if b is None:
-        ctx.bad("C19.3", upd, tops[0], "config.update has no branch for 'jaxtyping_disable'")
-        return
-    attrs, lowered, st = b
-    good = [a for a in attrs if a[0] == "jaxtyping_disable" and a[1]]
-    if not good:
-        ctx.bad("C19.3", upd, st, "config.update('jaxtyping_disable', v) does not store _maybestr2bool(v) in the attribute the wrapper reads "
+    outs = run_for("jaxtyping_disable")
+    lowered = lowered_seen["v"]
+    good = [o for o in outs if "store:jaxtyping_disable:parsed" in o.events and o.end.kind != "raise"]
+    if not outs or len(good) != len(outs):
+        o = next((o for o in outs if o not in good), None)
+        where = o.end.ast if o is not None and o.end.ast is not None else upd.node
+        ctx.bad("C19.3", upd, where, "config.update('jaxtyping_disable', v) does not store _maybestr2bool(v) in the attribute the wrapper reads "
                 "(`jaxtyping_disable`)")
     else:
-        ctx.ok("C19.3", upd.qualname, "update('jaxtyping_disable', v) -> self.jaxtyping_disable = _maybestr2bool(v, ..)")
+        ctx.ok("C19.3", upd.qualname, "update('jaxtyping_disable', v) -> self.jaxtyping_disable = <switch parser>(v, ..)")
     # __init__: update("jaxtyping_disable", os.environ.get("JAXTYPING_DISABLE", <default>))
     found = False
     for c in ast.walk(init.node):
